@@ -559,6 +559,19 @@ func cmdCheck(args []string) int {
 	if total == 0 {
 		fmt.Printf("UNDECIDED property=%s reason=no obligations generated (vacuous run)\n", *prop)
 	}
+	if os.Getenv("GVERIF_COVERSTATS") != "" {
+		cnt := map[string]int{}
+		tm := map[string]float64{}
+		for _, ob := range mine {
+			if strings.HasPrefix(ob.Kind, "cover") {
+				cnt[ob.Kind+"/"+ob.Result]++
+				tm[ob.Kind+"/"+ob.Result] += ob.TimeS
+			}
+		}
+		for k, n := range cnt {
+			fmt.Fprintf(os.Stderr, "covers %s: %d (%.1fs)\n", k, n, tm[k])
+		}
+	}
 	os.MkdirAll(filepath.Join(*verif, "evidence"), 0o755)
 	out, _ := json.MarshalIndent(ev, "", " ")
 	os.WriteFile(filepath.Join(*verif, "evidence", *prop+".json"), out, 0o644)
